@@ -16,7 +16,7 @@ class Spec:
     quick_workers: int = 4
     thorough_workers: int = 16
     quick_time: float = 90.0  # soft per-worker generation budget (seconds)
-    thorough_time: float = 1500.0
+    thorough_time: float = 2700.0
     exhaustive_only: bool = False
     assumptions: list[str] = field(default_factory=list)
 
@@ -38,42 +38,42 @@ PROPS["C17"] = Spec(
     "purity (deep-copy equality and id() graph of nested dicts) + algebraic laws; non-trivial = a dict/dict "
     "collision at depth>=2 or a dict/scalar collision; distinct = distinct canonical JSON of the pair",
     bounds={"quick": "depth<=4, <=4 keys per level, 4x3000 generated pairs + exhaustive small scope depth<=1",
-            "thorough": "depth<=4, <=5 keys per level, 16x60000 generated pairs + exhaustive small scope: all pairs of "
+            "thorough": "depth<=4, <=5 keys per level, 16x150000 generated pairs + exhaustive small scope: all pairs of "
             "dicts over keys {a,b}, leaves {1,None,[],{}}, depth<=2"},
     quick_cases=3000,
-    thorough_cases=60000,
+    thorough_cases=150000,
     assumptions=["PyYAML-free: merge_config only", "reference merge in harness/engines/config_merge.py"],
 )
 
 
 _E2_BOUNDS = {"quick": "5-40 ops, <=8 contexts, depth<=4, par blocks of 2-3 tasks, both backends",
-              "thorough": "5-70 ops, <=10 contexts, depth<=4, par blocks of 2-4 tasks, both backends"}
+              "thorough": "5-70 ops, <=10 contexts, depth<=4, par blocks of 2-4 tasks, both backends, 16x40000 histories"}
 _E2_GEN = ("histories of new-child / enter / leave / add_resource / add_resource_factory / lookup (8 lookup APIs) / "
            "parallel sub-histories over a growing context tree, drawn by a model-guided composite strategy; the "
            "reference model is applied online and every open context's get_resources view is compared after every op; ")
 
 PROPS["C02"] = Spec(
-    engine="harness.engines.resources", bounds=_E2_BOUNDS, quick_cases=1500, thorough_cases=12000,
+    engine="harness.engines.resources", bounds=_E2_BOUNDS, quick_cases=1500, thorough_cases=40000,
     rule=_E2_GEN + "non-trivial = tree depth>=2 and an addition to a context that already had a constructed child or a "
     "sibling, followed by a lookup of that pair from a different context; distinct = distinct canonical JSON",
     assumptions=COMMON_ASSUMPTIONS,
 )
 PROPS["C03"] = Spec(
-    engine="harness.engines.resources", bounds=_E2_BOUNDS, quick_cases=1500, thorough_cases=12000,
+    engine="harness.engines.resources", bounds=_E2_BOUNDS, quick_cases=1500, thorough_cases=40000,
     rule=_E2_GEN + "40% of adds reuse a taken pair, invalid names/None/invalid types/invalid teardown callbacks are injected; "
     "non-trivial = a raising add/factory registration with >=2 types, or a generation into a context that already holds "
     "one of the factory's pairs",
     assumptions=COMMON_ASSUMPTIONS,
 )
 PROPS["C04"] = Spec(
-    engine="harness.engines.resources", bounds=_E2_BOUNDS, quick_cases=1500, thorough_cases=12000,
+    engine="harness.engines.resources", bounds=_E2_BOUNDS, quick_cases=1500, thorough_cases=40000,
     rule=_E2_GEN + "factories sync/async with 0-2 checkpoints, types by argument or annotation; par blocks race lookups of "
     "one async factory; non-trivial = a generation followed by creation of a child and a lookup of that factory in the "
     "child, or a par block with >=2 async lookups of one checkpointing factory",
     assumptions=COMMON_ASSUMPTIONS,
 )
 PROPS["C18"] = Spec(
-    engine="harness.engines.resources", bounds=_E2_BOUNDS, quick_cases=1500, thorough_cases=12000,
+    engine="harness.engines.resources", bounds=_E2_BOUNDS, quick_cases=1500, thorough_cases=40000,
     rule=_E2_GEN + "a resource_added stream is opened on every entered context and drained up to a sentinel before it is "
     "left; non-trivial = >=2 listening contexts and at least one successful and one failing add/registration",
     assumptions=COMMON_ASSUMPTIONS,
@@ -81,7 +81,7 @@ PROPS["C18"] = Spec(
 
 PROPS["C01"] = Spec(
     engine="harness.engines.teardown",
-    quick_cases=4000, thorough_cases=25000,
+    quick_cases=4000, thorough_cases=80000,
     rule="one context block (root / nested in a root / callbacks registered from component code during start_component; "
     "optionally inside an unrelated `except` handler) with 0-8 (thorough 0-14) teardown callbacks registered through the four "
     "routes (ctx.add_teardown_callback, module-level add_teardown_callback, add_resource(teardown_callback=), @context_teardown "
@@ -92,13 +92,13 @@ PROPS["C01"] = Spec(
     "identity of the exception passed in, group-membership rule for callback exceptions, caller-visible outcome; "
     "non-trivial = >=2 callbacks and one of: raising callback, async callback, registration during teardown, non-return "
     "ending, ambient exception",
-    bounds={"quick": "<=8 top-level callbacks, nesting depth<=2, 4x4000 cases", "thorough": "<=14 top-level callbacks, 16x25000 cases"},
+    bounds={"quick": "<=8 top-level callbacks, nesting depth<=2, 4x4000 cases", "thorough": "<=14 top-level callbacks, 16x80000 cases"},
     assumptions=COMMON_ASSUMPTIONS,
 )
 
 PROPS["C13"] = Spec(
     engine="harness.engines.lifecycle",
-    quick_cases=4000, thorough_cases=30000,
+    quick_cases=4000, thorough_cases=100000,
     rule="complete enumeration of {add_resource, add_resource_factory, get_resource, get_resource_nowait (existing / factory / "
     "missing / missing-optional), add_teardown_callback, __aenter__, closed} x {never entered, open, inside a teardown callback, "
     "closed} x {clean, exception, cancelled, raising-teardown exit} x {root, nested} x {method, module-level API} x backend, plus "
@@ -106,7 +106,7 @@ PROPS["C13"] = Spec(
     "state of one context; oracle = the statement's allowed/forbidden table, unchanged get_resources views + silent event "
     "listener + never-run callbacks after forbidden calls, closed flag per state; non-trivial = touches a cell outside the four "
     "the suite samples; distinct = distinct canonical JSON",
-    bounds={"quick": "full matrix (~1000 cells) + 4x4000 generated sequences", "thorough": "full matrix + 16x30000 generated sequences"},
+    bounds={"quick": "full matrix (~1000 cells) + 4x4000 generated sequences", "thorough": "full matrix + 16x100000 generated sequences"},
     assumptions=COMMON_ASSUMPTIONS,
 )
 
@@ -116,7 +116,7 @@ _E5_ASSUME = COMMON_ASSUMPTIONS + [
     "filtered subscribers get queues that never overflow (whether non-passing events occupy queue slots is not specified)",
 ]
 PROPS["C11"] = Spec(
-    engine="harness.engines.signals", quick_cases=1500, thorough_cases=15000,
+    engine="harness.engines.signals", quick_cases=1500, thorough_cases=60000,
     rule="class hierarchies with 1-4 Signal attributes (3 event classes, inherited and overriding declarations; plain owners and "
     "value-equal frozen-dataclass owners), 1-3 instances, a generated permutation of first accesses, then a sequential history of "
     "open-stream (1-3 channels) / dispatch (incl. subclass events) / consume / leave / wrong-class dispatch / class-level use / "
@@ -124,18 +124,18 @@ PROPS["C11"] = Spec(
     "and pairwise distinctness of bound signals, per-subscriber FIFO model (an event reaches only its channel's subscribers), "
     "topic/source stamps, TypeError / UnboundSignal, dead weakrefs; non-trivial = (>=2 signals on one instance or >=2 instances) "
     "and dispatches on >=2 channels",
-    bounds={"quick": "<=3 classes, <=4 signals each, <=3 instances, 3-25 ops, 4x1500 cases", "thorough": "3-45 ops, 16x15000 cases"},
+    bounds={"quick": "<=3 classes, <=4 signals each, <=3 instances, 3-25 ops, 4x1500 cases", "thorough": "3-45 ops, 16x60000 cases"},
     assumptions=_E5_ASSUME,
 )
 PROPS["C10"] = Spec(
-    engine="harness.engines.signals", quick_cases=1500, thorough_cases=15000,
+    engine="harness.engines.signals", quick_cases=1500, thorough_cases=60000,
     rule="60% sequential histories (exact per-subscriber bounded-FIFO model: open with queue sizes 0-7 or large, filters, multi-signal "
     "streams, dispatch bursts, consume, leave with sentinel, iterator aclose, wait_event tasks) and 40% concurrent programs "
     "(1-3 consumer tasks with generated pacing, take-counts and cancellation, 1-2 dispatcher tasks; validity oracle: every "
     "(dispatch, subscriber) pair is either received or warned about, warnings legal only at full backlog and mandatory beyond "
     "capacity+1, received = delivered-and-passing in dispatch order); non-trivial = >=2 subscribers with different queue "
     "size/filter on one channel and an overflow or a subscriber that left while dispatching continues",
-    bounds={"quick": "3-25 ops / <=3 consumers x <=2 dispatchers x <=8 steps, 4x1500 cases", "thorough": "3-45 ops / <=14 steps, 16x15000 cases"},
+    bounds={"quick": "3-25 ops / <=3 consumers x <=2 dispatchers x <=8 steps, 4x1500 cases", "thorough": "3-45 ops / <=14 steps, 16x60000 cases"},
     assumptions=_E5_ASSUME,
 )
 
@@ -145,38 +145,38 @@ _E3_GEN = ("component trees (1-7, thorough 1-15 components; depth<=3/4; children
            "teardown callbacks, service tasks and publication bursts; wait edges are drawn only forward in a random "
            "linearisation of the phase DAG, so every dependency pattern is acyclic by construction; ")
 PROPS["C05"] = Spec(
-    engine="harness.engines.components", quick_cases=2500, thorough_cases=15000,
+    engine="harness.engines.components", quick_cases=2500, thorough_cases=50000,
     rule=_E3_GEN + "oracle on the (serial, event, path, virtual time) trace: constructors first, prepare-end before children, all "
     "children released at the same virtual instant, start-begin == max(children done) and after every descendant, each method "
     "once, return value/time, no timeout, ownership (visible in caller, nothing in its parent, reverse-order teardown, service "
     "tasks ended); non-trivial = (depth>=3 or a completed wait) and a phase with non-zero duration",
-    bounds={"quick": "<=7 components, depth<=3, fan-out<=3, <=4 steps per phase, 4x2500", "thorough": "<=15 components, depth<=4, fan-out<=4, <=6 steps, 16x15000"},
+    bounds={"quick": "<=7 components, depth<=3, fan-out<=3, <=4 steps per phase, 4x2500", "thorough": "<=15 components, depth<=4, fan-out<=4, <=6 steps, 16x50000"},
     assumptions=COMMON_ASSUMPTIONS,
 )
 PROPS["C06"] = Spec(
-    engine="harness.engines.components", quick_cases=2500, thorough_cases=15000,
+    engine="harness.engines.components", quick_cases=2500, thorough_cases=50000,
     rule=_E3_GEN + "decoys arise from the small type x name pools (same name/other type, same type/other name), bursts of 1-8 or 40-70 "
     "(thorough 40-130) unrelated publications without a checkpoint; oracle: every wait returns exactly at max(request time, first "
     "matching publication time) with the published object / factory product; optional, synchronous and outside-startup lookups "
     "complete without any other task running in between; non-trivial = (a wait whose publication came after the request, with a "
     "decoy present) or request and publication by another component within 3 trace events at the same virtual time (race window)",
-    bounds={"quick": "<=7 components, bursts<=70, 4x2500", "thorough": "<=15 components, bursts<=130, 16x15000"},
+    bounds={"quick": "<=7 components, bursts<=70, 4x2500", "thorough": "<=15 components, bursts<=130, 16x50000"},
     assumptions=COMMON_ASSUMPTIONS,
 )
 PROPS["C07"] = Spec(
-    engine="harness.engines.components", quick_cases=2500, thorough_cases=15000,
+    engine="harness.engines.components", quick_cases=2500, thorough_cases=50000,
     rule=_E3_GEN + "plus exactly one fault: 60% an exception (3 classes) injected at a generated position of a generated component's "
     "constructor/prepare()/start(); 25% timeout metamorphic (run without timeout to measure the virtual duration L, then with "
     "timeout L+-k: success with the same trace, or TimeoutError exactly at T); 15% a stalling component plus a timeout; oracle: "
     "ComponentStartError phase/path/class/__cause__ identity, no ancestor start(), every begun phase ended or cancelled, no trace "
     "growth during 10^4 virtual seconds after the error, reverse-order teardown, no surviving service task; non-trivial = failing "
     "component at depth>=2 or a sibling cancelled mid-phase, or >=2 phases cancelled by the timeout",
-    bounds={"quick": "<=7 components, 4x2500 (timeout cases run twice)", "thorough": "<=15 components, 16x15000"},
+    bounds={"quick": "<=7 components, 4x2500 (timeout cases run twice)", "thorough": "<=15 components, 16x50000"},
     assumptions=COMMON_ASSUMPTIONS,
 )
 
 PROPS["C12"] = Spec(
-    engine="harness.engines.ctxstack", quick_cases=2500, thorough_cases=20000,
+    engine="harness.engines.ctxstack", quick_cases=2500, thorough_cases=60000,
     rule="trees of tasks (anyio task-group children, service tasks, task-factory tasks; depth<=3) each running a generated script "
     "of nested context blocks (nest<=4) left by return / Exception / BaseException / cancellation / a raising teardown callback, "
     "checkpoints, Context() creations and observations, plus component phases creating contexts; oracle = per-task stack model: "
@@ -184,12 +184,12 @@ PROPS["C12"] = Spec(
     "task's top (inside component code: the context start_component was called in), spawned tasks start from the spawner's top / a "
     "fresh context inheriting from the owner, the top is restored after every way of leaving; non-trivial = >=2 tasks inside "
     "their own context blocks at the same time, or a non-return exit at nesting depth>=2",
-    bounds={"quick": "<=30 script items per case, 4x2500", "thorough": "<=60 items, 16x20000"},
+    bounds={"quick": "<=30 script items per case, 4x2500", "thorough": "<=60 items, 16x60000"},
     assumptions=COMMON_ASSUMPTIONS,
 )
 
 PROPS["C08"] = Spec(
-    engine="harness.engines.svctasks", quick_cases=2500, thorough_cases=20000,
+    engine="harness.engines.svctasks", quick_cases=2500, thorough_cases=60000,
     rule="a root or nested context with 2-8 (thorough 2-12) registrations mixing plain teardown callbacks, resources with (async) "
     "teardown callbacks and start_service_task with teardown_action in {cancel, None, sync callable, async callable, callable "
     "raising Exception, callable raising BaseException} and task behaviour in {ends by itself after d ticks, runs until told then "
@@ -200,12 +200,12 @@ PROPS["C08"] = Spec(
     "exactly for cancel / raising-callable tasks still running, all tasks ended before the block is left, start value, resource "
     "snapshot, crash surfaces from the root block and cancels the body; non-trivial = a service task with cleanup time>0 that has "
     "registrations both before and after it",
-    bounds={"quick": "2-8 registrations, 4x2500", "thorough": "2-12 registrations, 16x20000"},
+    bounds={"quick": "2-8 registrations, 4x2500", "thorough": "2-12 registrations, 16x60000"},
     assumptions=COMMON_ASSUMPTIONS,
 )
 
 PROPS["C09"] = Spec(
-    engine="harness.engines.taskfactory", quick_cases=2500, thorough_cases=20000,
+    engine="harness.engines.taskfactory", quick_cases=2500, thorough_cases=60000,
     rule="a task factory started in a root or nested context F (0-2 resources before, more added after; handler absent / truthy / "
     "falsy / None-returning) and 2-14 (thorough 2-24) operations: spawn via start_task / start_task_soon (with task_status, names) "
     "from F, from a nested child context holding other resources, or from inside another factory task; task outcomes return after "
@@ -216,12 +216,12 @@ PROPS["C09"] = Spec(
     "in a fresh context inheriting from the factory's, F is left at max(end times) without cancelling, handler called once per "
     "escaping exception, unclaimed exception surfaces from the root context; non-trivial = >=2 tasks alive at a cancel or at "
     "teardown, or a spawn from a context other than F",
-    bounds={"quick": "<=8 tasks, 2-14 ops, 4x2500", "thorough": "2-24 ops, 16x20000"},
+    bounds={"quick": "<=8 tasks, 2-14 ops, 4x2500", "thorough": "2-24 ops, 16x60000"},
     assumptions=COMMON_ASSUMPTIONS,
 )
 
 PROPS["C14"] = Spec(
-    engine="harness.engines.compconfig", quick_cases=1500, thorough_cases=12000,
+    engine="harness.engines.compconfig", quick_cases=1500, thorough_cases=40000,
     rule="8 spec-driven component classes (reachable as class objects, `module:attr` references and real entry points) whose "
     "constructors call add_component() for 0-3 children with generated kwargs (scalars, lists, None, nested dicts) and types "
     "spelled as class / reference / entry point / omitted (alias `epN` or `epN/name`), plus a generated external `components` "
@@ -231,12 +231,12 @@ PROPS["C14"] = Spec(
     "(path, class) == reference expansion, resource names follow the alias remapping rule, the configuration object is unchanged "
     "(deep comparison) and a second start_component with the same object builds the same tree; non-trivial = (depth>=2 and a key "
     "holding dicts on both sides) or a config-only child with its own components",
-    bounds={"quick": "8 classes, depth<=3, 4x1500", "thorough": "depth<=4, 16x12000"},
+    bounds={"quick": "8 classes, depth<=3, 4x1500", "thorough": "depth<=4, 16x40000"},
     assumptions=COMMON_ASSUMPTIONS + ["entry points come from harness/fakedist/verif_c14-0.0.dist-info through importlib.metadata"],
 )
 
 PROPS["C16"] = Spec(
-    engine="harness.engines.cli", quick_cases=1500, thorough_cases=15000,
+    engine="harness.engines.cli", quick_cases=1500, thorough_cases=60000,
     rule="1-3 YAML files rendered with PyYAML from generated nested dicts (overlapping top-level, component and service sections; "
     "scalars of every YAML type, lists, None; !Env / !TextFile / !BinaryFile tags with set and unset variables, paths with spaces, "
     "arbitrary bytes), 0-4 --set overrides on existing and new nested paths with escaped dots and YAML-typed values (flow "
@@ -247,7 +247,7 @@ PROPS["C16"] = Spec(
     "called once with exactly (type, component config, options) - types compared strictly (True != 1) - or, for error cases, an "
     "error and no call; non-trivial = (>=2 files with a nested key on both sides) or an escaped dot or both --service and the "
     "variable or a service section overriding a nested top-level key",
-    bounds={"quick": "full ladder + 4x1500 generated invocations", "thorough": "full ladder + 16x15000"},
+    bounds={"quick": "full ladder + 4x1500 generated invocations", "thorough": "full ladder + 16x50000"},
     assumptions=["PyYAML is trusted on both sides (rendering the files and parsing them)", "click's argument parsing is trusted",
                  "error *text* is not compared (click 8.5 writes it to stderr), only that the command fails and starts nothing",
                  "a top-level `component` is never mixed with `services` (the guide says the one replaces the other)",
@@ -255,7 +255,7 @@ PROPS["C16"] = Spec(
 )
 
 PROPS["C15"] = Spec(
-    engine="harness.engines.runner", quick_cases=3500, thorough_cases=15000,
+    engine="harness.engines.runner", quick_cases=3500, thorough_cases=50000,
     rule="a 1-4 (thorough 1-6) component application (CLI or not) whose prepare()/start() scripts register teardown callbacks (with "
     "and without pass_exception) and service tasks between sleeps, run through run_application under virtual time with one "
     "generated ending: run() returning None/0/1/5/127/128/255/-1/'x'/1.5 or raising; an exception while creating/preparing/"
@@ -265,12 +265,12 @@ PROPS["C15"] = Spec(
     "exception object; either documented outcome for a crash during startup), run() never called after a failed startup, every "
     "registered teardown callback and service task finalised exactly once in reverse registration order; non-trivial = >=2 "
     "components registering callbacks and an ending other than a clean CLI return",
-    bounds={"quick": "<=4 components, <=3 steps per phase, 4x3500", "thorough": "<=6 components, 16x15000"},
+    bounds={"quick": "<=4 components, <=3 steps per phase, 4x3500", "thorough": "<=6 components, 16x50000"},
     assumptions=COMMON_ASSUMPTIONS + ["signals are raised with signal.raise_signal in the main thread of the worker process; at most one per run"],
 )
 
 PROPS["C19"] = Spec(
-    engine="harness.engines.injection", quick_cases=2000, thorough_cases=20000,
+    engine="harness.engines.injection", quick_cases=2000, thorough_cases=60000,
     rule="function source is generated and exec'd: 0-3 ordinary parameters (positional-or-keyword / keyword-only, with/without "
     "defaults), 1-3 injected parameters (resource() / resource(name); annotations T, Optional[T], T | None, string forward references "
     "to module-level and to function-local classes), sync or async, plain function or method; resources are static, made by a "
@@ -281,6 +281,6 @@ PROPS["C19"] = Spec(
     "arguments), exception classes, body-ran counter, factory call counters and resource_added events must agree; negatives "
     "raise TypeError at decoration; non-trivial = >=2 injected parameters with different names, or a missing optional, or a "
     "factory-made / inherited resource",
-    bounds={"quick": "4x2000 (each case runs twice)", "thorough": "16x20000"},
+    bounds={"quick": "4x2000 (each case runs twice)", "thorough": "16x60000"},
     assumptions=COMMON_ASSUMPTIONS + ["injected parameters are never also passed by the caller"],
 )
